@@ -540,7 +540,8 @@ class Explorer:
     strategy 'tree'  : generational search over the branch tree: for every explored path and every atom position k,
                        prefix[0..k) AND NOT atom_k is solved; the exploration is complete when every alternative is
                        explored or proved infeasible by the solver."""
-    def __init__(self, exe, plain, args, workdir, max_paths=64, tol=TOL, timeout=120, maxsteps=None, solver_timeout_ms=20000, seed=0, strategy='global'):
+    def __init__(self, exe, plain, args, workdir, max_paths=64, tol=TOL, timeout=120, maxsteps=None, solver_timeout_ms=20000, seed=0, strategy='global', time_budget_s=None):
+        self.time_budget_s = time_budget_s; self.t_start = time.time(); self.budget_hit = False
         self.exe, self.plain, self.args, self.workdir = exe, plain, args, workdir
         self.max_paths, self.tol, self.timeout, self.maxsteps, self.solver_timeout_ms = max_paths, tol, timeout, maxsteps, solver_timeout_ms
         self.strategy = strategy
@@ -571,7 +572,7 @@ class Explorer:
     def _one(self, handle, inputs, k):
         rec, info = run_harness(self.exe, self.args, inputs, self.workdir, self.timeout, self.maxsteps, tag='p%d' % k)
         self.stats['runs'] += 1; self.stats['run_s'] += info['wall']
-        dec = Decider(rec, self.tol, self.solver_timeout_ms, self.V) if rec is not None else None
+        dec = Decider(rec, self.tol, max(self.solver_timeout_ms, 20000), self.V) if rec is not None else None
         handle(rec, info, dec, k, dict(inputs))
         if dec is not None:
             for key in ('queries', 'solver_s', 'lra', 'relax', 'nra', 'zero_residual'): self.stats[key] += dec.stats[key]
@@ -583,6 +584,7 @@ class Explorer:
         inputs = {}
         npaths = 0
         while npaths < self.max_paths:
+            if self.time_budget_s and time.time() - self.t_start > self.time_budget_s: self.budget_hit = True; break
             rec, info, dec = self._one(handle, inputs, npaths)
             npaths += 1
             if rec is None:
@@ -624,6 +626,7 @@ class Explorer:
         queue = deque([(None, 0, None, None)]); prio = deque()   # prio: alternatives of float->int conversions (index / endpoint classes) first
         npaths = 0
         while (queue or prio) and npaths < self.max_paths:
+            if self.time_budget_s and time.time() - self.t_start > self.time_budget_s: self.budget_hit = True; break
             prefix, bound, expect, near = prio.popleft() if prio else queue.popleft()
             if prefix is None:
                 inputs = {}
